@@ -482,7 +482,7 @@ theorem findD_step [SafePred P] (root : Val) (hroot : SafeKeys P root) (fuel : N
                     · exact P_textTok hop hv
                     · exact P_upTok
                     · exact hrest t ht
-                · exact Post_err rfl
+                · exact ⟨rfl, Good_mk_none hpar hfound⟩
 
 theorem Good_of_fst {root : Val} {f : Res} {v : Val} (h : Good P root f) :
     Good P root { parent := f.parent, nameIdx := f.nameIdx, value := v, found := f.found, notFound := Option.none } :=
@@ -568,9 +568,9 @@ def IHLoop (P : Str → Prop) (root : Val) (fuel : Nat) : Prop :=
     (∀ f, fst = some f → Good P root f) →
     Post P root (findL.loop sp par rl found tok rest fuel root i items acc fst)
 
-theorem dispatchD_post [SafePred P] (root : Val) (hroot : SafeKeys P root) (fuel : Nat) (elem : PRef) (ev : Val)
+theorem dispatchD_post [SafePred P] (root : Val) (hroot : SafeKeys P root) (fuel : Nat) (sp : Pos) (elem : PRef) (ev : Val)
     (toks : List Str) (rl : Bool) (found : Str) (helem : SafeRef P root elem) (htoks : ∀ t ∈ toks, P t)
-    (hfound : P found) : Post P root (dispatchD fuel root elem ev toks rl found) := by
+    (hfound : P found) : Post P root (dispatchD fuel root sp elem ev toks rl found) := by
   unfold dispatchD
   split
   · exact (find_post root hroot fuel).1 _ _ _ _ _ _ helem htoks hfound
@@ -592,13 +592,13 @@ theorem findL_loop_step [SafePred P] (root : Val) (hroot : SafeKeys P root) (fue
     split
     · rename_i e he
       split at he
-      · rw [← he]; exact dispatchD_post root hroot fuel _ _ rest rl _ heref hrest hf'
+      · rw [← he]; exact dispatchD_post root hroot fuel sp _ _ rest rl _ heref hrest hf'
       · rw [← he]; exact ihL sp rest _ rl _ heref hrest hf'
       · cases he; exact Post_err rfl
     · rename_i root' r hr
       have h1 : Post P root (Except.ok (root', r)) := by
         split at hr
-        · rw [← hr]; exact dispatchD_post root hroot fuel _ _ rest rl _ heref hrest hf'
+        · rw [← hr]; exact dispatchD_post root hroot fuel sp _ _ rest rl _ heref hrest hf'
         · rw [← hr]; exact ihL sp rest _ rl _ heref hrest hf'
         · cases hr
       obtain ⟨hroot', hg⟩ := h1
@@ -634,10 +634,10 @@ theorem findL_step [SafePred P] (root : Val) (hroot : SafeKeys P root) (fuel : N
       · rename_i name idx hsplit
         obtain ⟨hname, hidx⟩ := splitNameIndex_ok (P := P) htok hsplit
         split
-        · exact ⟨rfl, Good_mk_none hpar hfound⟩
+        · exact (find_post root hroot fuel).1 _ _ _ _ _ _ hpar htoks hfound
         · split
           · exact Post_err rfl
-          · exact Post_err rfl
+          · exact (find_post root hroot fuel).1 _ _ _ _ _ _ hpar htoks hfound
           · rename_i s _
             simp only [PIdx] at hidx
             split
@@ -683,8 +683,8 @@ theorem findL_step [SafePred P] (root : Val) (hroot : SafeKeys P root) (fuel : N
                           | exact ⟨rfl, goodIdx _ _ _ (SafeRef_wrap hpar) hwrapL⟩
                         · split
                           · first
-                            | exact dispatchD_post root hroot fuel _ _ rest rl _ (SafeRef_child hpar _) hrest hfi
-                            | exact dispatchD_post root hroot fuel _ _ rest rl _ (SafeRef_child (SafeRef_wrap hpar) _) hrest hfi
+                            | exact dispatchD_post root hroot fuel sp _ _ rest rl _ (SafeRef_child hpar _) hrest hfi
+                            | exact dispatchD_post root hroot fuel sp _ _ rest rl _ (SafeRef_child (SafeRef_wrap hpar) _) hrest hfi
                           · first
                             | exact ihL sp rest _ rl _ (SafeRef_child hpar _) hrest hfi
                             | exact ihL sp rest _ rl _ (SafeRef_child (SafeRef_wrap hpar) _) hrest hfi
